@@ -1940,6 +1940,44 @@ def emit_fire(ev):
     return '\n'.join(out)
 
 
+def emit_zero_glue(ev):
+    """`Calculator.barrel_elevation_for_target` (stored zero = total elevation − look angle), `set_weapon_zero` (stores it, structurally),
+    and the key `Shot.winds` sorts the segments by"""
+    f = ev.method('Calculator', 'barrel_elevation_for_target')
+    if f is None:
+        raise Unsupported('barrel_elevation_for_target not found')
+    body = [n for n in f.body if not (isinstance(n, ast.Expr) and isinstance(n.value, ast.Constant))]
+    want = [ast.dump(ast.parse(x).body[0]) for x in ('target_distance = PreferredUnits.distance(target_distance)',
+                                                      'total_elevation = self._calc.zero_angle(shot, target_distance)')]
+    if len(body) != 3 or [ast.dump(n) for n in body[:2]] != want or not isinstance(body[2], ast.Return):
+        raise Unsupported('barrel_elevation_for_target changed shape')
+    r = ev.ev(body[2].value, {'total_elevation': Qty('Angular', 'total'), 'shot.look_angle': Qty('Angular', 'look')})
+    if not isinstance(r, Qty):
+        raise Unsupported('barrel_elevation_for_target does not return a quantity')
+    out = ['/-- `Calculator.barrel_elevation_for_target`: the zero to store (raw radians) from the total elevation `zero_angle` returned -/\n'
+           f'def stored_zero (total look : α) : α :=\n  {r.raw}\n']
+    g = ev.method('Calculator', 'set_weapon_zero')
+    gb = [n for n in g.body if not (isinstance(n, ast.Expr) and isinstance(n.value, ast.Constant))] if g else []
+    want = [ast.dump(ast.parse(x).body[0]) for x in ('shot.weapon.zero_elevation = self.barrel_elevation_for_target(shot, zero_distance)',
+                                                      'return shot.weapon.zero_elevation')]
+    if [ast.dump(n) for n in gb] != want:
+        raise Unsupported('set_weapon_zero changed shape')
+    w = ev.method('Shot', 'winds')
+    wb = [n for n in w.body if not (isinstance(n, ast.Expr) and isinstance(n.value, ast.Constant))] if w else []
+    if len(wb) != 1 or not isinstance(wb[0], ast.Return):
+        raise Unsupported('Shot.winds changed shape')
+    c = wb[0].value
+    ok = (isinstance(c, ast.Call) and ev.dotted(c.func) == 'tuple' and len(c.args) == 1 and isinstance(c.args[0], ast.Call)
+          and ev.dotted(c.args[0].func) == 'sorted' and len(c.args[0].args) == 1 and ev.dotted(c.args[0].args[0]) == 'self._winds'
+          and len(c.args[0].keywords) == 1 and c.args[0].keywords[0].arg == 'key' and isinstance(c.args[0].keywords[0].value, ast.Lambda))
+    if not ok:
+        raise Unsupported('Shot.winds is not tuple(sorted(self._winds, key=lambda ...))')
+    lam = c.args[0].keywords[0].value
+    k = ev.ev(lam.body, {lam.args.args[0].arg: Obj('Wind', {'until_distance': Qty('Distance', 'untilRaw')})})
+    out.append(f'/-- `Shot.winds`: the key the segments are sorted by (stable `sorted`) -/\ndef winds_sort_key (untilRaw : α) : α :=\n  {num(k)}\n')
+    return '\n'.join(out)
+
+
 def find_self_assign(ev, cls, meth, attr):
     m = ev.method(cls, meth)
     for n in ast.walk(m) if m else []:
@@ -2026,6 +2064,7 @@ def generate(repo: Path) -> str:
     group(['loop_body'], lambda: emit_loop_body(ev))
     group(['init_trajectory'], lambda: emit_init_trajectory(ev))
     group(['loop_init', 'final_row'], lambda: emit_loop_init(ev))
+    group(['stored_zero', 'winds_sort_key'], lambda: emit_zero_glue(ev))
     group(['fire_default_step', 'fire_given_step', 'trajectory_flags', 'trajectory_feet'], lambda: emit_fire(ev))
     group(['apex_init', 'apex_cond', 'apex_rising', 'apex_move_right', 'apex_move_left', 'lookup_distance_cond', 'lookup_time_cond',
            'lookup_time_key', 'lookup_within_deviation', 'lookup_before_is_nearer'], lambda: emit_lookup(ev))
